@@ -667,6 +667,108 @@ def stateful_parse(ctx):
         ctx.decide(f'{nm}/witness-err', [pcs([o for o in rets if strip(ex, o.st, strip(ex, o.st, o.val).fields[0]).variant == 'Err'])], expect='sat', ex=ex)
 
 
+def partial_parse(ctx):
+    """PartialAuthorizationCall::parse: principal / action / resource are optional; the request is assembled with the builder (each given component in its own setter,
+    the context always), validated against the schema iff one is given and validate_request is set"""
+    import itertools
+    P = ctx.prog('api')
+    fs = [f for f in P.find(r'>::parse$', FILE) if len(f.args) == 1 and f.args[0][1].endswith('PartialAuthorizationCall')]
+    if len(fs) != 1:
+        raise LookupError(f'PartialAuthorizationCall::parse: {len(fs)} candidates')
+    f = fs[0]
+    ctx.use(f)
+    for has_schema, (hp, ha, hr) in itertools.product((False, True), itertools.product((False, True), repeat=3)):
+        ex = ctx.new_exec('api')
+        ex.havoc_unknown = True
+        ex.max_paths = 6000
+        given = {'principal': hp, 'action': ha, 'resource': hr}
+        comp = {k: Opaque('ffi::utils::' + t, k + ' (JSON)') for k, t in (('principal', 'EntityUid'), ('action', 'EntityUid'), ('resource', 'EntityUid'), ('context', 'Context'), ('entities', 'Entities'), ('policies', 'PolicySet'))}
+        parsed = {k: Opaque('api::' + t, k) for k, t in (('principal', 'EntityUid'), ('action', 'EntityUid'), ('resource', 'EntityUid'), ('context', 'Context'), ('entities', 'Entities'), ('policies', 'PolicySet'), ('schema', 'Schema'), ('request', 'Request'))}
+        names = [k for k in ('principal', 'action', 'resource') if given[k]] + ['context', 'entities', 'policies', 'request'] + (['schema'] if has_schema else [])
+        OKB = {k: z3.Bool(f'{k}_parses') for k in names}
+        VALIDATE = z3.Bool('validate_request')
+        jschema = Opaque('ffi::utils::Schema', 'schema (JSON)')
+        call = Agg('struct', 'ffi::is_authorized::PartialAuthorizationCall', None, [some(comp[k]) if given[k] else none() for k in ('principal', 'action', 'resource')] + [comp['context'], some(jschema) if has_schema else none(), BoolV(VALIDATE), comp['policies'], comp['entities']],
+                   ('principal', 'action', 'resource', 'context', 'schema', 'validate_request', 'policies', 'entities'))
+        cidx = {v.id: k for k, v in comp.items()}
+
+        def parse_any(ex_, st, c, A):
+            k = cidx.get(ident(ex_, st, A[0]))
+            if k is None and ident(ex_, st, A[0]) == jschema.id:
+                return [([OKB['schema']], ok(Agg('tuple', None, None, [parsed['schema'], Agg('struct', '~vec_iter', None, [])]))), ([z3.Not(OKB['schema'])], err(Opaque('ErrReport', 'schema error')))]
+            if k is None:
+                return None
+            if k in ('context', 'entities'):
+                sch = strip(ex_, st, A[1])
+                st.notes[k + '_schema'] = (sch.variant, ident(ex_, st, sch.fields[0]) if isinstance(sch, Agg) and sch.variant == 'Some' else None) if isinstance(sch, Agg) else '?'
+                if k == 'context':
+                    act = strip(ex_, st, A[2])
+                    st.notes['context_action'] = (act.variant, ident(ex_, st, act.fields[0]) if isinstance(act, Agg) and act.variant == 'Some' else None) if isinstance(act, Agg) else '?'
+            if k == 'policies':
+                return [([OKB[k]], ok(parsed[k])), ([z3.Not(OKB[k])], err(Agg('struct', '~vec', None, [Opaque('ErrReport', 'policy error')])))]
+            return [([OKB[k]], ok(parsed[k])), ([z3.Not(OKB[k])], err(Opaque('ErrReport', k + ' error')))]
+        ex.stub(r'utils::(EntityUid|Context|Entities|PolicySet|Schema)::parse$', parse_any, 'parse of one component of the call: the parsed value or an error, logged')
+        ex.stub(r'api::Request::builder$', lambda ex_, st, c, A: Agg('struct', '~builder', None, []), 'Request::builder()')
+
+        def setter(ex_, st, c, A):
+            b = strip(ex_, st, A[0])
+            if not (isinstance(b, Agg) and b.name == '~builder'):
+                return None
+            what = c.rsplit('::', 1)[1]
+            return Agg('struct', '~builder', None, list(b.fields) + [Agg('tuple', None, None, [Opaque('setter', what), A[1]])])
+        ex.stub(r'api::RequestBuilder::<.*>::(principal|action|resource|context|schema)$', setter, 'RequestBuilder setters: logged in the builder')
+
+        def build(ex_, st, c, A):
+            b = strip(ex_, st, A[0])
+            if not (isinstance(b, Agg) and b.name == '~builder'):
+                return None
+            st.notes['built'] = [(strip(ex_, st, e.fields[0]).what, ident(ex_, st, e.fields[1])) for e in b.fields]
+            if 'UnsetSchema' in c:
+                return parsed['request']
+            return [([OKB['request']], ok(parsed['request'])), ([z3.Not(OKB['request'])], err(Opaque('RequestValidationError', 'invalid request')))]
+        ex.stub(r'api::RequestBuilder::<.*>::build$', build, 'RequestBuilder::build: the request (validated when a schema was set), logged')
+        ex.stub(r'as Into<.*(ErrReport|Report)>>::into$|as From<.*>>::from$', lambda ex_, st, c, A: Opaque('ErrReport', 'converted error') if 'Report' in c else None, 'error -> report (term)')
+        C.install(ex)
+        outs = ex.run(f, [call])
+        ctx.absorb(ex)
+        nm = f'PartialAuthorizationCall::parse[{"with" if has_schema else "without"} schema; given: {", ".join(k for k in given if given[k]) or "nothing"}]'
+        ctx.panic_summary(nm, outs, ex)
+        rets = [o for o in outs if o.kind == 'ret']
+        bad = []
+
+        def res(o):
+            v = strip(ex, o.st, o.val)
+            t = strip(ex, o.st, v.fields[0]) if isinstance(v, Agg) and v.fields else None
+            if not (isinstance(t, Agg) and t.variant in ('Ok', 'Err')):
+                raise NotEncoded(f'{nm}: result {v!r}')
+            return t
+        for o in rets:
+            t = res(o)
+            if t.variant == 'Ok':
+                tup = strip(ex, o.st, t.fields[0])
+                built = o.st.notes.get('built') or []
+                want = [(k, parsed[k].id) for k in ('principal', 'action', 'resource') if given[k]] + [('context', parsed['context'].id)]
+                want_schema = ('Some', parsed['schema'].id) if has_schema else ('None', None)
+                good = isinstance(tup, Agg) and [ident(ex, o.st, x) for x in tup.fields] == [parsed['request'].id, parsed['policies'].id, parsed['entities'].id]
+                good = good and [b for b in built if b[0] != 'schema'] == want and o.st.notes.get('entities_schema') == want_schema and o.st.notes.get('context_schema') == want_schema
+                good = good and o.st.notes.get('context_action') == (('Some', parsed['action'].id) if ha else ('None', None))
+                with_schema = ('schema', parsed['schema'].id) in built
+                others = z3.And([OKB[k] for k in names if k != 'request'])
+                if has_schema:
+                    claim = z3.And(others, z3.BoolVal(bool(good)), z3.If(VALIDATE, z3.And(z3.BoolVal(with_schema), OKB['request']), z3.BoolVal(not with_schema)))
+                else:
+                    claim = z3.And(others, z3.BoolVal(bool(good and not with_schema)))
+            else:
+                # failure: some component failed (the request only counts when it is validated)
+                claim = z3.Not(z3.And([OKB[k] for k in names if k != 'request'] + ([z3.Or(z3.Not(VALIDATE), OKB['request'])] if has_schema else [])))
+            bad.append(z3.And(o.pc + [z3.Not(claim)]))
+        ctx.decide(f'{nm}/given components through their own setters, context always, schema iff given and validate_request; any error fails the call', [z3.Or(bad) if bad else T], ex=ex, sample={'paths': len(rets)},
+                   on_sat=lambda m, nm=nm: battery_replay(ctx, nm, 'ffi/is_authorized.rs: PartialAuthorizationCall::parse', 'the partial call is assembled from the wrong components'))
+        ctx.decide(f'{nm}/paths-cover', [z3.Not(pcs(rets))], ex=ex)
+        ctx.decide(f'{nm}/witness-ok', [pcs([o for o in rets if res(o).variant == 'Ok'])], expect='sat', ex=ex)
+        ctx.decide(f'{nm}/witness-err', [pcs([o for o in rets if res(o).variant == 'Err'])], expect='sat', ex=ex)
+
+
 def history_replay(ctx, name, role, why):
     return battery_replay(ctx, name, role, why)
 
@@ -698,7 +800,7 @@ def families(ctx):
     return c19_cli.families(ctx) + c19_routes.families(ctx) + [('ffi::is_authorized', lambda: entry(ctx, 'is_authorized::is_authorized')), ('ffi::stateful_is_authorized', lambda: entry(ctx, 'stateful_is_authorized')),
             ('response conversion', lambda: response_conversion(ctx)), ('call parse', lambda: call_parse(ctx)),
             ('preparse policies', lambda: preparse(ctx, 'policies')), ('preparse schema', lambda: preparse(ctx, 'schemas')), ('stateful parse', lambda: stateful_parse(ctx)),
-            ('cache frame', lambda: cache_frame(ctx))] + c19_utils.families(ctx)
+            ('cache frame', lambda: cache_frame(ctx)), ('partial call parse', lambda: partial_parse(ctx))] + c19_utils.families(ctx)
 
 
 def run(ctx):
